@@ -6,5 +6,11 @@ export CARGO_NET_OFFLINE=true
 export CARGO_TARGET_DIR=/verif/target
 export RUSTFLAGS="--cfg vek_verif"
 [ -f Cargo.lock ] || cp /repo/Cargo.lock Cargo.lock
-cargo build --offline --release -p props --bins
+BINS=""
+for p in $(cat /verif/driver/built.txt); do
+  b=$(echo "$p" | tr 'A-Z' 'a-z')
+  if [ "$b" = "c20" ]; then continue; fi
+  BINS="$BINS --bin $b"
+done
+cargo build --offline --release -p props $BINS
 echo "setup: monitor binaries built"
